@@ -103,6 +103,8 @@ def run(ctx):
                       label="(A) findCommonAncestor, every (H, A, R)")
     ctx.tlc_must_hold("net", "Sync", cfg="MC_SyncB_quick.cfg" if q else "MC_SyncB_thorough.cfg", workers=w, timeout=1500,
                       label="(B) download pipeline x scripted peers")
+    ctx.tlc_must_hold("net", "Sync", cfg="MC_SyncB_depth.cfg" if q else "MC_SyncB_depth_thorough.cfg", workers=w, timeout=900,
+                      label="(B) deep pipeline: 4-5 single-block batches, queues full behind every fault; download returns")
     ctx.tlc_must_hold("net", "Sync", cfg="MC_SyncC.cfg", workers=w, timeout=300, label="(C) message codes x classes")
 
     drifts = []
@@ -150,6 +152,8 @@ def run(ctx):
         ctx.cov["download_converged_to_preferred_remote"] = sum(1 for c in cases if c["fault"] == "none" and c["prefers"] and c["converged"])
         ctx.cov["download_remote_not_preferred_kept_local"] = sum(1 for c in cases if c["fault"] == "none" and not c["prefers"] and c["status"] == "ok")
         ctx.cov["download_multi_batch"] = sum(1 for c in cases if c["fetches"] >= 3)
+        ctx.cov["download_handler_error_with_full_pipeline_ms"] = [c["elapsedMs"] for c in cases if c["fault"] == "flood"]
+        ctx.cov["download_exact_score_ties"] = [(c["label"], c["converged"]) for c in cases if c["label"].startswith("tie")]
         ctx.cov["download_blocks_over_reply_budget"] = [c["label"] for c in cases if c["label"].startswith("huge")]
         ctx.cov["handler_streams_with_nil_markers"] = sum(1 for c in cases if c["peer"] == "stream" and c["nilMarkersQueued"] > 0)
         ctx.cov["download_nil_markers_queued_by_real_decoder"] = sum(c["nilMarkersQueued"] for c in cases if c["label"].startswith("throttle"))
@@ -162,7 +166,7 @@ def run(ctx):
             ctx.sample({"download_case": {"case": bs[0][0]["case"], "end": bs[0][-1]}})
 
     # ---- 3b. real Communicator.Sync between full nodes --------------------------------------------------------
-    args = ["-mode", "sync", "-pairs", "20"] + ([] if q else ["-deep"])
+    args = ["-mode", "sync", "-pairs", "24"] + ([] if q else ["-deep"])
     events, st = sc.run_driver(ctx, "syncsim", args, "sync", timeout=900)
     n_sync = 0
     if events is not None:
@@ -175,6 +179,7 @@ def run(ctx):
         n_sync = len(pairs)
         ctx.cov["sync_pairs"] = n_sync
         ctx.cov["sync_pairs_converged"] = sum(1 for p in pairs if p["prefers"] and p["converged"])
+        ctx.cov["sync_pairs_exact_score_tie"] = [(p["label"], p["prefers"], p["converged"]) for p in pairs if p["label"].startswith("tie")]
         ctx.cov["sync_pairs_hostile"] = sum(1 for p in pairs if p["hostile"])
         ctx.cov["sync_peers_dropped"] = sum(1 for p in pairs if p["peerDropped"])
         ctx.cov["traces_validated_against_impl"] += acc
@@ -214,7 +219,7 @@ def run(ctx):
     ctx.assumptions += [
         "hashes/signatures are injective oracles; block ids, total scores and the id order are logged facts",
         "fork choice in the explored scenarios is (total score, id): validator 2 never signs, so no epoch is justified and finality plays no part",
-        "peer selection by announced score (Communicator.Sync) is taken as given; the in-process pipe delivers whole messages in order (devp2p framing is not under test)",
+        "peer selection is exercised with strictly better and exactly tying announced scores (both id orders); with several peers the choice among them is not under test; the in-process pipe delivers whole messages in order (devp2p framing is not under test)",
         "hostile peers are scripted at the rpc layer: one fault per download, 14 fault kinds x stream positions x batch sizes; random payloads are seeded samples",
     ]
     if drifts and not ctx.violations:
